@@ -123,7 +123,9 @@ def _validator_heap(parallel):
     except Exception:
         kb = 16 * 1024 * 1024
     mb = max(1024, int(kb / 1024 * 0.6 / max(1, parallel)))
-    return "-Xmx%dm" % mb
+    # -Xss: RunTx on a 14-state machine recurses deeper than the default 1 MB stack allows
+    # (a StackOverflowError is a tooling limit, not a verdict)
+    return "-Xmx%dm -Xss64m" % mb
 
 
 def validate_traces(module, consts, trace_files, timeout=900, parallel=14):
